@@ -5,6 +5,7 @@ import KyupyVerif.Proofs.WaveMemCirc
 import KyupyVerif.Proofs.WaveMemDemo
 import KyupyVerif.Proofs.Capture
 import KyupyVerif.Props.C08
+import KyupyVerif.Proofs.WaveBridge
 /-! # C03 — timing simulation settles to the Boolean function for any delays/capacity
 
 Model (M, tied by correspondence with `wave_eval_cpu` and whole `WaveSim` runs): `Wave.waveEval` is a
@@ -289,5 +290,86 @@ example :
   intro stim
   rw [memDemo_tables.2.2.1]
   decide +kernel
+
+/-! ## the code-path model is such a run
+The memory-level theorems above speak about ANY run whose evaluator calls honour `WaveStep`. `WaveIO.cpuCProp` / `gpuCProp`
+(Model/WaveIO.lean: `WaveSim.c_prop` / `WaveSimCuda.c_prop` as the code has them — nested loops / kernel launches over lanes, the waveform
+evaluator `evWave` reading and writing the lane's column; tied to the real arrays cell by cell by C06 `path-tie`) is one: -/
+open KV.WaveIO in
+/-- **a lane of `c_prop` is a propagation in the sense of the memory theorems**: `p` an accepted map record with `c_caps_min ≥ 4`,
+    delays ≥ 0, the op / level tables of the run list the rows of `p` in an order certified by `schedOKB` (`hrows`), lane `k < sims`,
+    the lane's initial column holds well-formed stimulus waveforms — then the lane's column after `cpuCProp` with the waveform
+    evaluator is `Propagated` from its initial column -/
+theorem cprop_is_propagation (p : MapIn) (hc : p.check = none) (h4 : 4 ≤ p.capsMin) (delay : Nat → Bool → Bool → Int)
+    (hd : ∀ l a b, 0 ≤ delay l a b) (ops : List AOp) (levels : List (Nat × Nat)) (sims : Nat) (S : Nat → LaneSt) (k : Nat)
+    (hk : k < sims) (order : List Nat) (horder : p.schedOKB order = true)
+    (hrows : (WaveIO.sched ops levels).map (·.op) = schedOps p order)
+    (env0 : Nat → Wv) (henv : ∀ x, (env0 x).ok) (h0 : Stimulus p (S k).c env0) :
+    Propagated p delay (S k).c (cpuCProp (evWave (fun _ => wcfg p delay) p.loc) ops levels sims S k).c := by
+  refine ⟨order, horder, ?_⟩
+  rw [cpuCProp_lane _ ops levels sims S k hk, laneRun_c]
+  have hcap : ∀ o ∈ WaveIO.sched ops levels, 2 ≤ p.cap o.op.out := by
+    intro o ho
+    have hmem : o.op ∈ schedOps p order := by rw [← hrows]; exact List.mem_map_of_mem ho
+    have := cap_ge_of_check p hc o.op (mem_schedOps hmem)
+    omega
+  rw [laneMem_eq_memRun p delay k _ _ hcap, hrows]
+  exact wave_memory_run_exists p hc h4 delay hd keepJunk order horder (S k).c env0 henv h0
+
+open KV.WaveIO in
+/-- **the propagation of the code-path model computes the signal-level waveforms** (both paths, every block shape): under the
+    hypotheses of `cprop_is_propagation` the region of every output slot `j` of lane `k` — read as `c_to_s` / `wave_capture` scan it —
+    holds the waveform `simWave` assigns to the captured signal -/
+theorem cprop_memory_sound (p : MapIn) (hc : p.check = none) (h4 : 4 ≤ p.capsMin) (delay : Nat → Bool → Bool → Int)
+    (hd : ∀ l a b, 0 ≤ delay l a b) (ops : List AOp) (levels : List (Nat × Nat)) (sims bx by_ : Nat) (hbx : 0 < bx) (hby : 0 < by_)
+    (S : Nat → LaneSt) (k : Nat) (hk : k < sims) (order : List Nat) (horder : p.schedOKB order = true)
+    (hrows : (WaveIO.sched ops levels).map (·.op) = schedOps p order)
+    (env0 : Nat → Wv) (henv : ∀ x, (env0 x).ok) (h0 : Stimulus p (S k).c env0) (j s : Nat) (hjs : (j, s) ∈ p.ppoSrcs) :
+    readWave (rdCells (cpuCProp (evWave (fun _ => wcfg p delay) p.loc) ops levels sims S k).c (p.loc j) (p.cap j)) =
+        simWave (wcfg p delay) (waveProg p) env0 s ∧
+    gpuCProp (evWave (fun _ => wcfg p delay) p.loc) ops levels sims bx by_ S =
+        cpuCProp (evWave (fun _ => wcfg p delay) p.loc) ops levels sims S := by
+  refine ⟨?_, gpuCProp_eq_cpuCProp _ ops levels sims bx by_ hbx hby S⟩
+  rw [readWave_rdCells_eq]
+  exact propagated_eq_sim p hc delay _ _ env0 h0
+    (cprop_is_propagation p hc h4 delay hd ops levels sims S k hk order horder hrows env0 henv h0) j s hjs
+
+open KV.WaveIO in
+/-- non-vacuity on `Wave.memDemo` (strip + reuse): its four rows as the op table of the code-path model, levels `[0,2) [2,3) [3,4)`,
+    two lanes, program order — the hypotheses of `cprop_memory_sound` hold and output slot 14 of lane 0 reads as the signal-level
+    waveform of line 5 -/
+example :
+    let ops : List AOp := memDemo.ops.map fun o => ⟨o, -1, 0, 0⟩
+    let S : Nat → LaneSt := fun _ => ⟨memDemoM0, fun _ => 0⟩
+    readWave (rdCells (cpuCProp (evWave (fun _ => wcfg memDemo memDemoDelay) memDemo.loc) ops [(0, 2), (2, 3), (3, 4)] 2 S 0).c
+        (memDemo.loc 14) (memDemo.cap 14)) =
+      simWave (wcfg memDemo memDemoDelay) (waveProg memDemo) (inputEnv memDemo memDemoM0) 5 := by
+  intro ops S
+  exact (cprop_memory_sound memDemo memDemo_check (by decide) memDemoDelay memDemoDelay_nonneg ops [(0, 2), (2, 3), (3, 4)] 2 1 1
+    (by decide) (by decide) S 0 (by decide) [0, 1, 2, 3] (by decide +kernel) (by decide +kernel)
+    (inputEnv memDemo memDemoM0) (inputEnv_ok memDemo memDemoM0 memDemo_inputs) (stimulus_inputEnv memDemo memDemoM0) 14 5
+    (by rw [memDemo_tables.2.2.2.1]; exact List.mem_singleton.2 rfl)).1
+
+open KV.WaveIO in
+/-- **program order, hypotheses on the tables only**: the op table of the run lists the rows of `p` (`ops.map (·.op) = p.ops`), the
+    level table is `zip(level_starts, level_stops)` of boundaries `0 = b₀ ≤ b₁ ≤ … ≤ b_m = len(ops)` (what the levelisation produces:
+    `C07.levels_contiguous`) — then every output slot of every lane `k < sims` reads, after `c_prop` of either path, as the
+    signal-level waveform of the captured signal -/
+theorem cprop_program_order_sound (p : MapIn) (hc : p.check = none) (h4 : 4 ≤ p.capsMin) (delay : Nat → Bool → Bool → Int)
+    (hd : ∀ l a b, 0 ≤ delay l a b) (ops : List AOp) (hops : ops.map (·.op) = p.ops) (bs : List Nat)
+    (hbs : List.Pairwise (· ≤ ·) (0 :: bs)) (hlast : (bs.getLast?).getD 0 = ops.length)
+    (sims bx by_ : Nat) (hbx : 0 < bx) (hby : 0 < by_) (S : Nat → LaneSt) (k : Nat) (hk : k < sims)
+    (env0 : Nat → Wv) (henv : ∀ x, (env0 x).ok) (h0 : Stimulus p (S k).c env0) (j s : Nat) (hjs : (j, s) ∈ p.ppoSrcs) :
+    readWave (rdCells (gpuCProp (evWave (fun _ => wcfg p delay) p.loc) ops (WaveIO.levelPairs 0 bs) sims bx by_ S k).c (p.loc j) (p.cap j)) =
+      simWave (wcfg p delay) (waveProg p) env0 s := by
+  rw [gpuCProp_eq_cpuCProp _ ops _ sims bx by_ hbx hby, readWave_rdCells_eq, cpuCProp_lane _ ops _ sims S k hk, laneRun_c,
+    sched_contiguous ops bs hbs hlast]
+  have hcap : ∀ o ∈ ops, 2 ≤ p.cap o.op.out := by
+    intro o ho
+    have hmem : o.op ∈ p.ops := by rw [← hops]; exact List.mem_map_of_mem ho
+    have := cap_ge_of_check p hc o.op hmem
+    omega
+  rw [laneMem_eq_memRun p delay k ops _ hcap, hops]
+  exact propagated_eq_sim p hc delay _ _ env0 h0 (propagated_exists p hc h4 delay hd keepJunk (S k).c env0 henv h0) j s hjs
 
 end KV.C03
